@@ -42,6 +42,7 @@ SecRule REQUEST_HEADERS:/^x-/ "@beginsWith evil" "id:40,phase:1,pass,nolog,ctl:r
 SecRule ARGS:c "@streq x" "id:50,phase:2,pass,nolog,setvar:tx.n=+1"
 SecRule &ARGS "@gt 3" "id:60,phase:2,pass,nolog,skip:1"
 SecRule ARGS:d "@within a b c x" "id:70,phase:2,pass,nolog,setvar:tx.n=+1"
+SecRule ARGS "@ipMatch 10.1.0.0/24,10.2.0.0/24,10.3.0.0/24,10.4.0.0/24,10.5.0.0/24,10.6.0.0/24,10.7.0.0/24,10.8.0.0/24,10.9.0.0/24,10.10.0.0/24,10.11.0.0/24,10.12.0.0/24,2001:db8::/32" "id:72,phase:2,pass,nolog,setvar:'tx.ip_%{MATCHED_VAR_NAME}=%{MATCHED_VAR}'"
 SecRule ARGS|!ARGS:/^z/ "@contains drop" "id:80,phase:2,pass,nolog,t:lowercase,t:removeWhitespace,multiMatch,setvar:tx.n=+1"
 SecRule ARGS:a "@rx ." "id:84,phase:2,pass,nolog,ctl:ruleRemoveTargetById=85;ARGS:c"
 SecRule ARGS|!ARGS:b|!ARGS:z1|!ARGS:zz "@contains evil" "id:85,phase:2,pass,nolog,setvar:tx.n=+1"
@@ -65,7 +66,7 @@ type req struct {
 }
 
 func genReq(r *rand.Rand) eng.Scen {
-	vals := []string{"x", "select", "SELECT 1", "union", " drop ", "d r o p", "a", "evil-1", "ok", "", "sel", "Select x"}
+	vals := []string{"x", "select", "SELECT 1", "union", " drop ", "d r o p", "a", "evil-1", "ok", "", "sel", "Select x", "10.1.0.9", "10.9.0.5", "10.12.0.7", "10.11.0.1", "10.13.0.1", "2001:db8::5"}
 	keys := []string{"a", "b", "c", "d", "z1", "A"}
 	var s eng.Scen
 	s.Engine = "On"
